@@ -500,25 +500,82 @@ func ruleCodec(c *Ctx) {
 	}
 	if fn := c.fn("op", "ParseKey"); fn != nil {
 		c.site(1)
-		// fields come from captures 1, 2, 3 in this order
-		ac := &affCtx{c: c, fn: fn, alias: map[ssa.Value]string{}}
-		nameArg, accArg, minorCmp := "", "", ""
-		for _, ci := range callsTo(fn, "note.NewName") {
-			nameArg = ac.describe(ci.Common().Args[0])
-		}
-		for _, ci := range callsTo(fn, "op.NewAccidental") {
-			accArg = ac.describe(ci.Common().Args[0])
-		}
-		allInstrs(fn, func(in ssa.Instruction) {
-			if b, ok := in.(*ssa.BinOp); ok && b.Op == token.EQL {
-				if s, ok := constString(b.Y); ok && s == "m" {
-					minorCmp = ac.describe(b.X)
-				}
+		// fields come from captures 1, 2, 3 of the key regex in this order (the construction may sit in a helper)
+		tr := c.plainTracer()
+		region := c.regionCalls(fn, nil)
+		capOf := func(rc rcall, v ssa.Value) int { return captureNumber(tr, lval{v, rc.fn, rc.chain}) }
+		nameCap, accCap, minorCap := -1, -1, -1
+		for _, rc := range region {
+			switch calleeName(rc.call.Common()) {
+			case "note.NewName":
+				nameCap = capOf(rc, rc.call.Common().Args[0])
+			case "op.NewAccidental":
+				accCap = capOf(rc, rc.call.Common().Args[0])
 			}
-		})
-		good := strings.HasSuffix(nameArg, "[0]") && strings.HasSuffix(accArg, "[1]") && strings.HasSuffix(minorCmp, "[2]")
-		c.check(good, fname(fn), c.pos(fn.Pos()), fname(fn), "letter <- capture 1, accidental <- capture 2, minor <- capture 3", fmt.Sprintf("ParseKey takes letter from %s, accidental from %s, minor mark from %s", nameArg, accArg, minorCmp))
+		}
+		fns := map[*ssa.Function][]ssa.CallInstruction{fn: nil}
+		for _, rc := range region {
+			if _, ok := fns[rc.fn]; !ok {
+				fns[rc.fn] = rc.chain
+			}
+		}
+		for f, chain := range fns {
+			allInstrs(f, func(in ssa.Instruction) {
+				if b, ok := in.(*ssa.BinOp); ok && b.Op == token.EQL {
+					for _, pair := range [][2]ssa.Value{{b.X, b.Y}, {b.Y, b.X}} {
+						if s, ok := constString(tr.trace(lval{pair[1], f, chain}).v); ok && s == "m" {
+							minorCap = captureNumber(tr, lval{pair[0], f, chain})
+						}
+					}
+				}
+			})
+		}
+		good := nameCap == 1 && accCap == 2 && minorCap == 3
+		c.check(good, fname(fn), c.pos(fn.Pos()), fname(fn), "letter <- capture 1, accidental <- capture 2, minor <- capture 3", fmt.Sprintf("ParseKey takes letter from capture %d, accidental from capture %d, minor mark from capture %d (want 1, 2, 3)", nameCap, accCap, minorCap))
 	}
+}
+
+// captureNumber: the located string is capture group k of a regexp match (FindStringSubmatch(s)[k], or
+// FindAllStringSubmatch(s, -1)[0][k], possibly re-sliced first): returns k, or -1.
+func captureNumber(tr *tracer, l lval) int {
+	l = tr.trace(l)
+	ia := indexOfLoad(l.v)
+	if ia == nil {
+		return -1
+	}
+	k, ok := constInt(ia.Index)
+	if !ok {
+		return -1
+	}
+	base := tr.trace(l.with(ia.X))
+	for i := 0; i < 4; i++ {
+		if sl, ok := base.v.(*ssa.Slice); ok {
+			lo := int64(0)
+			if sl.Low != nil {
+				v, ok := constInt(sl.Low)
+				if !ok {
+					return -1
+				}
+				lo = v
+			}
+			k += lo
+			base = tr.trace(base.with(sl.X))
+			continue
+		}
+		break
+	}
+	// the match itself
+	if call, ok := base.v.(*ssa.Call); ok && strings.HasSuffix(calleeName(&call.Call), "regexp.Regexp.FindStringSubmatch") {
+		return int(k)
+	}
+	if ia0 := indexOfLoad(base.v); ia0 != nil {
+		if z, ok := constInt(ia0.Index); ok && z == 0 {
+			if call, ok := tr.trace(base.with(ia0.X)).v.(*ssa.Call); ok && strings.HasSuffix(calleeName(&call.Call), "regexp.Regexp.FindAllStringSubmatch") {
+				return int(k)
+			}
+		}
+	}
+	return -1
 }
 
 // partIndex: v = ParseUint(parts[i])#0 -> i, else -1.
